@@ -323,6 +323,35 @@ func c20Case(c *Ctx, i int64) {
 			if err2 != nil || code2 != 0 || ea != nil || eb != nil || !bytes.Equal(ga, da) || !bytes.Equal(gb, db) {
 				c.Violation("multi-file-uncompress-failed", fmt.Sprintf("lz4c uncompress a.bin.lz4 b.bin.lz4 did not restore both files: exit %d err %v, a: %d/%d bytes, b: %d/%d bytes, stdout %q stderr %q", code2, err2, len(ga), len(da), len(gb), len(db), head(out2, 300), head(se2, 200)), det())
 			}
+			// files made with different settings in one uncompress invocation, in both orders: a third file
+			// with the other extreme of the block size and the other block-checksum setting
+			fo := fl
+			fo.bc = !fl.bc
+			if fl.size == "64K" || fl.size == "256K" {
+				fo.size = "4M"
+			} else {
+				fo.size = "64K"
+			}
+			cf := filepath.Join(dir, "c.bin")
+			dc := gen.Text(g, c.Repo, 150000)
+			os.WriteFile(cf, dc, 0o644)
+			if _, _, code3, err3 := c20Run(dir, umask, nil, append(append([]string{"compress"}, fo.args()...), "c.bin")...); err3 == nil && code3 == 0 {
+				for order := 0; order < 2; order++ {
+					os.Remove(a)
+					os.Remove(cf)
+					names := []string{"a.bin.lz4", "c.bin.lz4"}
+					if order == 1 {
+						names = []string{"c.bin.lz4", "a.bin.lz4"}
+					}
+					out4, se4, code4, err4 := c20Run(dir, umask, nil, append([]string{"uncompress"}, names...)...)
+					ga, ea := os.ReadFile(a)
+					gc, ec := os.ReadFile(cf)
+					c.Count("multi_file_invocations_mixed_settings", 1)
+					if err4 != nil || code4 != 0 || ea != nil || ec != nil || !bytes.Equal(ga, da) || !bytes.Equal(gc, dc) {
+						c.Violation("multi-file-uncompress-failed/mixed-settings", fmt.Sprintf("lz4c uncompress %v (made with %v and %v) did not restore both files: exit %d err %v, a: %d/%d bytes, c: %d/%d bytes, stdout %q stderr %q", names, fl.args(), fo.args(), code4, err4, len(ga), len(da), len(gc), len(dc), head(out4, 300), head(se4, 200)), det())
+					}
+				}
+			}
 		}
 		if !ok {
 			c.Violation("multi-file-compress-failed", fmt.Sprintf("lz4c compress %v a.bin b.bin did not produce two valid .lz4 files: exit %d err %v stdout %q stderr %q", fl.args(), code, err, head(out, 300), head(se, 200)), det())
